@@ -747,6 +747,7 @@ func (c *Ctx) checkSnConnContext(r *Report, run *ssa.Function) {
 		}
 		// the cancel function of that context: every call is in a closure after its last sender call, or deferred
 		bad := ""
+		skipped := ""
 		ctxVal := call.Call.Args[0]
 		if u, ok := ctxVal.(*ssa.UnOp); ok && u.Op == token.MUL {
 			if a, ok := u.X.(*ssa.Alloc); ok && a.Referrers() != nil {
@@ -786,6 +787,13 @@ func (c *Ctx) checkSnConnContext(r *Report, run *ssa.Function) {
 						if f == run && !deferred {
 							bad = "the connection context is cancelled in the session function itself (" + c.instrPos(site) + "), not after the shutdown DISCONNECT"
 						}
+						// the context is rooted at Background: this call is the only thing that ever ends the read
+						// of the client connection, so no path through the goroutine may skip it
+						if f != run {
+							if skip, at := pathExists(f, nil, func(j ssa.Instruction) bool { _, ok := j.(*ssa.Return); return ok }, func(j ssa.Instruction) bool { return j == site }); skip {
+								skipped = "a path through the shutdown goroutine returns (" + c.instrPos(at) + ") without cancelling the connection context (" + c.instrPos(site) + "): that context is rooted at context.Background() and cancelled nowhere else, so the MQTT-SN receive loop keeps reading from the silent client, the errgroup never finishes and the session is never released"
+							}
+						}
 					})
 				}
 			}
@@ -795,6 +803,7 @@ func (c *Ctx) checkSnConnContext(r *Report, run *ssa.Function) {
 		} else {
 			r.ok("R6", key, c.instrPos(i), "rooted at context.Background(); cancelled only after the shutdown goroutine's last send (or deferred)")
 		}
+		r.cond(skipped == "", "R6", key+":cancelled-on-every-path", c.instrPos(i), "every path through the goroutine that cancels the connection context reaches the cancel", skipped)
 	})
 	if n == 0 {
 		r.undecided("R6", fnKey(run)+":client-connection-context", c.pos(run.Pos()), "no NewConnWithContext call wrapping the session function's net.Conn parameter found")
